@@ -593,6 +593,14 @@ def run_workload(spec, ctx):
                 for text in ("$[?%s]" % call, "$[?%s == 'int']" % call, "$[?%s == 1 || %s == @.a]" % (call, call), "$..[?%s != 'float']" % call):
                     query_case(ctx, text, edge)
                     query_case(ctx, text, edge, options=True)
+        # every type name the type-testing functions may know (documented ones, aliases, likely additions, unknown ones), against
+        # those numbers
+        for tname in ("int", "integer", "float", "number", "num", "string", "str", "boolean", "bool", "null", "nil", "none", "array", "list", "sequence", "object", "dict", "mapping", "undefined", "missing", "function", "INT", "Int", "", "int ", "decimal", "nan", "infinity"):
+            for fn in ("is", "isinstance"):
+                for text in ("$[?%s(@.a, '%s')]" % (fn, tname), "$..[?!%s(@, '%s')]" % (fn, tname), "$[?%s(@.a, '%s') == true || typeof(@.a) == '%s']" % (fn, tname, tname)):
+                    query_case(ctx, text, edge)
+                    query_case(ctx, text, edge, options=True)
+                    ctx.count("type_names_x_numbers_at_the_edge_of_float_semantics")
         for text in ("$[?@.a == 1]", "$[?@.a > 1e308]", "$[?@.a < @.t]", "$[?@.a in [1, 2.5]]", "$[?@.a =~ /1/]", "$[?@.a == @.a]", "$..[?@ >= 0]", "$[?@.a]"):
             query_case(ctx, text, edge)
         # values (not texts) with more digits than the interpreter converts to text: in documents, operation values, as
